@@ -25,7 +25,7 @@ CHUNK = 60
 
 
 def bounds(tier):
-    return {"bases": 6, "singles": "every operator x every site", "pairs": "same-file pairs" if tier == "quick" else "all pairs",
+    return {"bases": "6 + 4 with extreme geometry (coordinate validation only)", "singles": "every operator x every site", "pairs": "same-file pairs" if tier == "quick" else "all pairs",
             "limit_level": [None, 0], "coords": [False, True]}
 
 
@@ -49,6 +49,13 @@ def bases(seed=0):
             d.update(geos[li % len(geos)])
             d.update({"fields": ["temp", "density"], "layout": lay, "payload": "coded", "seed": seed, "layout_class": lname})
             out.append(d)
+        # huge coordinates / tiny cells (compared with the default tolerances of np.isclose)
+        for gi, geo in enumerate(scope.extreme_geometries(nd)):
+            d = dict(mesh)
+            d.update(geo)
+            d.update({"fields": ["temp", "density"], "layout": lays["multi" if (gi + nd) % 2 else "nonmono"], "payload": "coded",
+                      "seed": seed, "layout_class": "extreme_geometry_%d" % gi, "coords_only": True})
+            out.append(d)
     return out
 
 
@@ -69,6 +76,12 @@ def enumerate_mutants(desc, tier, textual=False, workdir="/dev/shm"):
     out = []
     s0 = mutate.singles(model, coords=False, textual=textual)
     s1 = mutate.singles(model, coords=True, textual=False)
+    if desc.get("coords_only"):
+        # the extreme geometries matter for the coordinate validation only: bound and index-line edits, in coordinate mode
+        for m in s1:
+            if m[0] in ("bound", "index"):
+                out.append(([m], True))
+        return out
     for m in s0:
         out.append(([m], False))
     for m in s1:
